@@ -56,4 +56,29 @@ def calcPooled {E S R : Type} (tasks : List (S → S)) (raises : Nat → Option 
     | some e => { result := .error e, calls := tasks.length }
     | none => { result := .ok (reduce σ), calls := tasks.length }   -- unreachable: the index is a raising one
 
+/-! ## what the driver's source must look like for the models above to be models of it
+
+`Gen/DriverGen.lean` (written by tools/translate_driver.py from the current `ccube.calculate` / `xcube.calculate`) records what
+the source says about each of these points. -/
+
+structure DriverFacts where
+  regionsPerCall : Bool          -- `results = [func.get_initial_regions(self) for func in funcs]` once, before the task is defined
+  callbackFirst : Bool           -- the task starts with `if self.check_interrupt is not None: self.check_interrupt()`
+  callbackSites : Nat            -- call sites of the callback inside the task
+  taskReturnsEarly : Bool        -- a `return` inside the task
+  sharedStores : List String     -- attributes of `self` / enclosing names the task stores to
+  viewSelection : List String    -- how the task selects its part of every region
+  flattened : List String        -- where the selecting coordinates come from
+  serialLoop : Bool              -- `for x in product: fill_one_cube(x)`
+  workerHandsBack : Bool         -- worker = `try: fill_one_cube(x) except Exception: raise except BaseException as e: return e`
+  poolMapReraise : Bool          -- `for exc in pool.map(worker, product): if exc is not None: raise exc` inside `closing(pool)`
+deriving Repr, DecidableEq
+
+/-- the shape `calcSerial`, `calcPooled`, the footprint discipline and "fresh regions per call" assume -/
+def DriverFacts.modelled (d : DriverFacts) (diagnostics : List String) : Bool :=
+  d.regionsPerCall && d.callbackFirst && d.callbackSites == 1 && !d.taskReturnsEarly &&
+  d.sharedStores.all (fun s => diagnostics.contains s) &&
+  d.viewSelection == ["regions = [region[tuple(flattened_slice)] for region in regions]"] &&
+  d.flattened.length == 1 && d.serialLoop && d.workerHandsBack && d.poolMapReraise
+
 end Catii.Sched
